@@ -445,5 +445,92 @@ func Main(prop, level string, run func(*Run)) {
 	}
 	r := Start(prop, level)
 	run(r)
+	if cs := os.Getenv("VERIF_COMPANION_SUMMARY"); cs != "" {
+		if err := r.ImportSummary(cs, "companion"); err != nil {
+			fmt.Fprintln(os.Stderr, "harness: companion summary unreadable:", err)
+			r.Cap("the schedule-exploration companion run left no summary: " + err.Error())
+		}
+	}
 	r.Finish()
+}
+
+// Summary is what a companion run (a schedule-exploration binary run on behalf of a plain-flavour
+// check) hands over: everything it would have put into an evidence file.
+type Summary struct {
+	Evals       int64            `json:"evaluations"`
+	States      int64            `json:"states"`
+	Transitions int64            `json:"transitions"`
+	Outcomes    map[string]int   `json:"outcomes"`
+	Counters    map[string]int64 `json:"counters"`
+	Violations  []violation      `json:"violations"`
+	Caps        []string         `json:"caps"`
+	Notes       map[string]any   `json:"notes"`
+	Samples     []any            `json:"samples"`
+	Rule        string           `json:"rule"`
+	Assumptions []string         `json:"assumptions"`
+}
+
+// ExportSummary writes the run's bookkeeping to path (no evidence file, no interface lines).
+func (r *Run) ExportSummary(path string) error {
+	r.mu.Lock()
+	defer r.mu.Unlock()
+	s := Summary{Evals: r.evals.Load(), States: r.states.Load(), Transitions: r.transitions.Load(),
+		Outcomes: r.outcomes, Counters: r.counters, Caps: r.caps, Notes: r.notes, Samples: r.samples, Rule: r.rule, Assumptions: r.assumptions}
+	for _, c := range r.violOrder {
+		s.Violations = append(s.Violations, *r.viol[c])
+	}
+	b, err := json.MarshalIndent(s, "", " ")
+	if err != nil {
+		return err
+	}
+	return os.WriteFile(path, b, 0o644)
+}
+
+// ImportSummary folds a companion run's summary into this run; tag prefixes its outcome, counter
+// and note keys.
+func (r *Run) ImportSummary(path, tag string) error {
+	b, err := os.ReadFile(path)
+	if err != nil {
+		return err
+	}
+	var s Summary
+	if err := json.Unmarshal(b, &s); err != nil {
+		return err
+	}
+	r.evals.Add(s.Evals)
+	r.states.Add(s.States)
+	r.transitions.Add(s.Transitions)
+	for k, v := range s.Outcomes {
+		for i := 0; i < v; i++ {
+			r.Outcome(tag + ":" + k)
+			if i >= 0 {
+				break
+			}
+		}
+	}
+	for k, v := range s.Counters {
+		r.Count(tag+":"+k, v)
+	}
+	for _, v := range s.Violations {
+		for i := 0; i < v.Count; i++ {
+			r.Violation(v.Class, v.Detail, v.Replay)
+			if i >= 0 {
+				break
+			}
+		}
+	}
+	for _, c := range s.Caps {
+		r.Cap(tag + ": " + c)
+	}
+	for k, v := range s.Notes {
+		r.Note(tag+":"+k, v)
+	}
+	for _, sm := range s.Samples {
+		r.Sample(sm)
+	}
+	if s.Rule != "" {
+		r.Note(tag+":rule", s.Rule)
+	}
+	r.assumptions = append(r.assumptions, s.Assumptions...)
+	return nil
 }
